@@ -188,6 +188,15 @@ func decodeLeiosTransactionReferences(
 			err,
 		)
 	}
+	// Every reference is a 32-byte hash plus a size: do not size the
+	// slice and map from a claimed length the input cannot back
+	if count > len(raw)/(Blake2b256Size+1) {
+		return nil, fmt.Errorf(
+			"decode leios endorser block transaction references: claimed %d entries in %d bytes",
+			count,
+			len(raw),
+		)
+	}
 	refs := make([]LeiosTransactionReference, 0, count)
 	seen := make(map[Blake2b256]struct{}, count)
 	for idx := range count {
